@@ -53,6 +53,21 @@ def run(prop, tier, seed, scratch, t0, replay):
         print("INCONCLUSIVE property=%s reason=generator\n%s" % (prop, err), flush=True)
         return 2
     fresh = open(os.path.join(work, "trees.go")).read()
+    # the generator must be a function of the template: regenerate several more times from scratch
+    # (a run-to-run difference, e.g. from map iteration order, is a difference from the checked-in file)
+    reruns = 15 if tier == "quick" else 47
+    unstable = 0
+    for _ in range(reruns):
+        os.remove(os.path.join(work, "trees.go"))
+        e = _generate(work)
+        if e:
+            print("INCONCLUSIVE property=%s reason=generator\n%s" % (prop, e), flush=True)
+            return 2
+        again = open(os.path.join(work, "trees.go")).read()
+        if again != fresh:
+            unstable += 1
+            if fresh == checked_in:
+                fresh = again  # report the differing output
     # also: regenerating OVER the existing file (the generator opens without O_TRUNC)
     shutil.copy(os.path.join(repo, "trees.go"), os.path.join(work, "trees.go"))
     err2 = _generate(work)
@@ -95,6 +110,8 @@ def run(prop, tier, seed, scratch, t0, replay):
                 "rule": "one program per template instantiation (alpha, unsigned, signed, float, compound): the generator is executed in a scratch copy of the working tree and each generated block is byte-compared with the checked-in block",
                 "exhaustive": True,
                 "regenerate_over_existing_file_identical": (over == checked_in) if over is not None else None,
+                "regenerations_from_scratch": reruns + 1,
+                "regenerations_differing_from_the_first": unstable,
                 "total_bytes_compared": len(fresh),
             },
             "assumptions": ["the repository's own pipeline (go run cmd/go-art/main.go; gofmt -w trees.go) is the reference translation",
